@@ -80,7 +80,7 @@ def gen_body(rng, boundary=None, nparts=None, small=False):
         # the data must not contain the full delimiter and must not end so that data+delimiter shifts the match
         put(delim, 'delim')
     put(b'--', 'fh')
-    epi = rng.choice(['none', 'crlf', 'crlf', 'text', 'look'])
+    epi = rng.choice(['none', 'crlf', 'crlf', 'text', 'look', 'blank_lines', 'headers_like', 'no_crlf'])
     if epi == 'crlf':
         put(b'\r\n', 'tail')
     elif epi == 'text':
@@ -89,6 +89,15 @@ def gen_body(rng, boundary=None, nparts=None, small=False):
     elif epi == 'look':
         put(b'\r\n', 'tail')
         put(b'junk' + delim[:-1] + b'!\r\n--', 'epi')
+    elif epi == 'blank_lines':
+        # RFC 2046: the epilogue is to be ignored, whatever it contains
+        put(b'\r\n', 'tail')
+        put(b'\r\n\r\nmore\r\n\r\n', 'epi')
+    elif epi == 'headers_like':
+        put(b'\r\n', 'tail')
+        put(b'X-Epilogue: 1\r\n\r\nbody-like\r\n' + delim[:-1], 'epi')
+    elif epi == 'no_crlf':
+        put(b'trailing junk right after the close delimiter\r\n\r\n', 'epi')
     body = bytes(out)
     # reject bodies in which the delimiter occurs somewhere else than the generator put it
     pos = -1
